@@ -228,3 +228,86 @@ func TestDumpLoadTwinWorlds(t *testing.T) {
 		t.Fatalf("only %d of %d histories reached the dump point", reached, n)
 	}
 }
+
+// A dump is a snapshot: what the source world does after DumpEntities (removals, recycling, new
+// entities, Reset) and what a world loaded from the dump does must not change the dump. Loading it
+// later reproduces the alive/dead status the handles had AT DUMP TIME, and the same dump can be loaded
+// into several worlds that then evolve independently.
+func TestDumpIsASnapshot(t *testing.T) {
+	n := 120
+	if thorough() {
+		n = 2000
+	}
+	for k := 0; k < n; k++ {
+		r := sim.NewRng(seed()*104729 + uint64(k))
+		caps := [][2]int{{1, 1}, {2, 1}, {4, 2}, {32, 4}}[r.Intn(4)]
+		w := ecs.NewWorld(caps[0], caps[1])
+		var hs []ecs.Entity
+		for i := 0; i < 3+r.Intn(30); i++ {
+			hs = append(hs, w.NewEntity())
+			if r.Chance(35) && len(hs) > 0 {
+				j := r.Intn(len(hs))
+				if w.Alive(hs[j]) {
+					w.RemoveEntity(hs[j])
+				}
+			}
+		}
+		dump := w.Unsafe().DumpEntities()
+		atDump := make([]bool, len(hs))
+		for i, h := range hs {
+			atDump[i] = w.Alive(h)
+		}
+		// the source world goes on
+		switch r.Intn(3) {
+		case 0:
+			for _, h := range hs {
+				if w.Alive(h) && r.Chance(60) {
+					w.RemoveEntity(h)
+				}
+			}
+			for i := 0; i < r.Intn(5); i++ {
+				w.NewEntity()
+			}
+		case 1:
+			w.Reset()
+			for i := 0; i < r.Intn(6); i++ {
+				w.NewEntity()
+			}
+		default:
+			for i := 0; i < 1+r.Intn(40); i++ { // growth beyond the capacity
+				w.NewEntity()
+			}
+		}
+		check := func(name string, x *ecs.World) {
+			for i, h := range hs {
+				if x.Alive(h) != atDump[i] {
+					t.Fatalf("VERIF-REPLAY seed=%d k=%d: %s: handle %v alive=%v, at dump time %v", seed(), k, name, h, x.Alive(h), atDump[i])
+				}
+			}
+		}
+		a := ecs.NewWorld(caps[0], caps[1])
+		a.Unsafe().LoadEntities(&dump)
+		check("first load (after the source world changed)", a)
+		// the first loaded world evolves; a second load of the same dump is unaffected
+		for _, h := range hs {
+			if a.Alive(h) && r.Chance(50) {
+				a.RemoveEntity(h)
+			}
+		}
+		for i := 0; i < r.Intn(6); i++ {
+			a.NewEntity()
+		}
+		b := ecs.NewWorld(caps[0], caps[1])
+		b.Unsafe().LoadEntities(&dump)
+		check("second load of the same dump", b)
+		// and the two loaded worlds are independent
+		for _, h := range hs {
+			if b.Alive(h) && r.Chance(50) {
+				b.RemoveEntity(h)
+			}
+		}
+		c := ecs.NewWorld(caps[0], caps[1])
+		c.Unsafe().LoadEntities(&dump)
+		check("third load of the same dump", c)
+	}
+}
